@@ -68,7 +68,7 @@ def rand_case(rng, cid, long_sleeps):
                     p += 1
                     st.append(S("call", p, u, "ka"))
                     st.append(S("sleep", n=30))
-        if rng.random() < 0.25 and not https:
+        if rng.random() < 0.25 and not https and idle == 60000:
             st.append(S("closeidle"))
         if held and rng.random() < 0.4:
             q = rng.choice(sorted(held))
@@ -151,6 +151,22 @@ def rerun(ctx, case_lines):
     return again == 2
 
 
+def log_rejections(ctx, res):
+    """what was rejected, for the log (known findings included)"""
+    known = lib.load_known(ctx.pid)
+    for t, bad in res:
+        if not bad:
+            continue
+        lines = lib.read_lines(t)
+        for ln in bad:
+            s_, _ = lib.case_at(lines, ln)
+            c = json.loads(lines[s_ - 1])
+            ev = json.loads(lines[ln - 1]) if ln - 1 < len(lines) and lines[ln - 1] else None
+            if not lib.match_known(known, c, ev):
+                lib.log("rejected: case %s kind %s mode %s at %s; before it: %s" % (
+                    c.get("id"), c.get("kind"), c.get("mode"), json.dumps(ev)[:200], " ".join(lines[max(s_, ln - 4):ln - 1])[:600]))
+
+
 def spec_checks(ctx, q):
     """The specification satisfies the property; the observer accepts every behaviour of it; the as-written models
     must violate OrphanFree / BoundedPerKey / CloseIdleAll and must be rejected by the observer."""
@@ -158,7 +174,8 @@ def spec_checks(ctx, q):
     jobs = [("HostMap", "HostMap_mcq.cfg", "corrected; one http and one https key (two maps, two cleaners), 2 callers, MaxConns 1, 2 ticks, CloseIdleConnections, reaper, retry window; all interleavings"),
             ("HostMap", "HostMap_mcq2.cfg", "corrected; one key, 2 callers x 2 calls: removal, re-creation, cleaner restart"),
             ("HostMap", "HostMap_liveq.cfg", "liveness IdleRemoved, Drains (fair callers, cleaner, reaper; unbounded ticks)"),
-            ("HostMapObsMC", "HostMapObsMC_quick.cfg", "the observer used for trace validation accepts every behaviour of HostMap (two maps, 2 callers)")]
+            ("HostMapObsMC", "HostMapObsMC_quick.cfg", "the observer used for trace validation accepts every behaviour of HostMap (two maps, 2 callers, 2 ticks, reaper, retry)"),
+            ("HostMapObsMC", "HostMapObsMC_quick_ci.cfg", "the observer accepts every behaviour with CloseIdleConnections (two maps, 2 callers, 1 tick)")]
     if not q:       # the long ones first
         jobs = [("HostMap", "HostMap_mc_thorough.cfg", "corrected; 2 keys (one https), 3 callers, MaxConns 2, 3 ticks"),
                 ("HostMapObsMC", "HostMapObsMC_thorough.cfg", "the observer accepts: 2 keys in one map, 2 callers x 2 calls"),
@@ -166,7 +183,8 @@ def spec_checks(ctx, q):
                 ("HostMap", "HostMap_mc.cfg", "corrected; 2 keys in one map, 2 callers x 2 calls, MaxConns 1, 1 retry"),
                 ("HostMap", "HostMap_mc3.cfg", "corrected; 2 keys, 3 concurrent callers, MaxConns 1, retry window"),
                 ("HostMap", "HostMap_mc2.cfg", "corrected; two maps, 2 callers x 2 calls, MaxConns 2"),
-                ("HostMapObsMC", "HostMapObsMC.cfg", "the observer accepts: 1 key, 2 callers x 2 calls (re-creation, cleaner restart)")] + jobs
+                ("HostMapObsMC", "HostMapObsMC.cfg", "the observer accepts: 1 key, 2 callers x 2 calls (re-creation, cleaner restart)"),
+                ("HostMapObsMC", "HostMapObsMC_two.cfg", "the observer accepts: two maps, 2 callers, 2 ticks, CloseIdleConnections, reaper, retry")] + jobs
     neg = [("HostMap", "HostMap_asis.cfg", "Invariant OrphanFree is violated",
             "the cleaner AS WRITTEN (ShouldRemove = connsCount = 0): TLC refutes OrphanFree, as required (X05-orphan-*)"),
            ("HostMap", "HostMap_asis_bound.cfg", "Invariant BoundedPerKey is violated",
@@ -260,6 +278,7 @@ def run(ctx):
         if nrun != len(cases):
             raise lib.Infra("driver ran %d cases of %d" % (nrun, len(cases)))
         res = lib.validate(ctx, M, C, traces, timeout=1500, par=4 if q else 8)
+        log_rejections(ctx, res)
         lib.handle_rejections(ctx, res, lambda cl: rerun(ctx, cl))
         if not ctx.violations:
             self_tests(ctx, accepted_only(ctx, traces, res))
@@ -277,16 +296,19 @@ def accepted_only(ctx, traces, res):
     rejection there is caused by the corruption"""
     out = os.path.join(ctx.scratch, "accepted.ndjson")
     bad = {t: set(b) for t, b in res}
-    with open(out, "w") as f:
-        for t in traces:
-            lines = lib.read_lines(t)
-            drop = set()
-            for ln in bad.get(t, ()):
-                s_, e_ = lib.case_at(lines, ln)
-                drop.update(range(s_, e_ + 1))
-            for i, l in enumerate(lines, 1):
-                if i not in drop and l:
-                    f.write(l + "\n")
+    by_kind = {}
+    for t in traces:
+        lines = lib.read_lines(t)
+        drop = set()
+        for ln in bad.get(t, ()):
+            s_, e_ = lib.case_at(lines, ln)
+            drop.update(range(s_, e_ + 1))
+        for cl in lib.split_cases([l for i, l in enumerate(lines, 1) if i not in drop and l]):
+            by_kind.setdefault(json.loads(cl[0])["kind"], []).append(cl)
+    with open(out, "w") as f:      # up to 6 cases of every kind
+        for k in sorted(by_kind):
+            for cl in by_kind[k][:6]:
+                f.write("\n".join(cl) + "\n")
     r = lib.validate(ctx, M, C, [out], count=False)
     if r[0][1]:
         raise lib.Infra("the accepted cases are not accepted when validated together")
